@@ -1,7 +1,7 @@
 package main
 
 // Go transcription of the order predicates of TextIdx.tla (Injective, SortedBy, TopK, TextOnlyOK,
-// VectorOnlyOK, TextFirstOK, FusionPool, HybridOK).  Documents are 0-based indices here; rk: smaller is better, equal = tie.
+// VectorOnlyOK, TextFirstOK, HybridOK).  Documents are 0-based indices here; rk: smaller is better, equal = tie.
 // A sample of the judged searches is handed back to TLC, which evaluates the TLA+ originals
 // (spec/Trace_TextIdx.tla) and must reach the same verdicts.
 
@@ -80,26 +80,6 @@ func textFirst(res []int, L, C map[int]bool, trk []int, k int) bool {
 	return true
 }
 
-// vecTopK / fusionPool / hybridOK: the late-fusion rule (0 < alpha < 1, any k)
-func fusionPool(L, C map[int]bool, vrk []int, k int) map[int]bool {
-	pool := map[int]bool{}
-	for d := range L {
-		closer := 0
-		for x := range L {
-			if vrk[x] < vrk[d] {
-				closer++
-			}
-		}
-		if closer < k {
-			pool[d] = true
-		}
-	}
-	for d := range C {
-		pool[d] = true
-	}
-	return pool
-}
-
 func fusionOK(mode string, res []int, L, C map[int]bool, vrk, trk, frk []int, k int) bool {
 	switch mode {
 	case "textonly":
@@ -109,7 +89,7 @@ func fusionOK(mode string, res []int, L, C map[int]bool, vrk, trk, frk []int, k 
 	case "alpha0":
 		return textFirst(res, L, C, trk, k)
 	case "hybrid":
-		return topK(res, fusionPool(L, C, vrk, k), frk, k)
+		return topK(res, L, frk, k) // HybridOK: the documented formula over every live (allowed) document
 	}
 	return false
 }
